@@ -193,6 +193,16 @@ def run(ctx: Ctx) -> None:
     o3, h3 = call("dictutils.findall", ["group", ["roads", "rivers"]])
     names = [x.get("name") for x in o3.value] if o3.kind == "return" else o3.exc
     ctx.check(names == ["l0", "l4", "l6"], "F2", "findall with a list of values", repo.loc("dictutils", repo.func("dictutils.findall")), "", f"asking for ['roads','rivers'] returns {names}")
+    o5, h5 = call("dictutils.findall", ["GROUP", "roads"])
+    names = [x.get("name") for x in o5.value] if o5.kind == "return" else o5.exc
+    ctx.check(names == ["l0", "l4"], "F2", "findall folds the key's case like find (plain dictionaries too)", repo.loc("dictutils", repo.func("dictutils.findall")), "", f"asking for GROUP 'roads' on plain dictionaries returns {names}, expected ['l0', 'l4'] as for 'group'")
+    from ..core import UnorderedIteration
+
+    try:
+        o6, h6 = call("dictutils.findunique", ["GROUP"])
+        ctx.check(o6.kind == "return" and list(o6.value) == ["", "rivers", "road", "roads", "roads-major"], "F2", "findunique folds the key's case like find", repo.loc("dictutils", repo.func("dictutils.findunique")), "", f"findunique(..., 'GROUP') = {o6.value!r} / {o6.exc}")
+    except UnorderedIteration:
+        pass  # F3 below reports a result that depends on set order
     o4, h4 = call("dictutils.findall", ["group", "lakes"])
     ctx.check(o4.kind == "return" and o4.value == [], "F2", "findall without match", repo.loc("dictutils", repo.func("dictutils.findall")), "", f"{o4.value!r}")
     ctx.check(all(snap(x["lst"]) == x["snap"] for x in (h, h3, h4)), "F2", "findall leaves the items unchanged", repo.loc("dictutils", repo.func("dictutils.findall")), "", "findall modified the list or its items")
